@@ -232,3 +232,6 @@ pub fn json_classify_avx2(chunk: &[u8; 32]) -> Option<[u32; 6]> {
 pub fn json_classify_sse2(chunk: &[u8; 16]) -> [u32; 6] {
     crate::json::simd::x86::verif_classify_chars(chunk)
 }
+
+/// C04: balanced-parentheses byte tables, word kernels, SSE4.1 index builders and index views.
+pub use crate::trees::verif_bp;
